@@ -139,27 +139,6 @@ def h_cov_step(k: int, c0: bool, c1: bool, c2: bool, share: bool, i0: int, i1: i
     return reach(ok and ret == changed)
 
 
-def h_cov_error_free_kept(i0: int, r0: int, sa: int, ra: int) -> bool:
-    """
-    pre: 0 <= i0 <= 4 and 0 <= sa <= 4 and 0 <= r0 <= 3 and 0 <= ra <= 3
-    post: _
-    """
-    # "Never loses a better solution", with "better" as the archive documents it (update: "preferring error-free
-    # test cases over shorter ones with errors"; _is_better_than_current: "both have same error status and
-    # candidate is shorter"): an error-free incumbent is not given up for a test that times out / raises.
-    install_tape([])
-    g = Goal(0)
-    arch = CoverageArchive(OrderedSet([g]))
-    inc = Sol("inc", i0, r0, {g: True})
-    cand = Sol("A", sa, ra, {g: True})
-    arch.update([inc])
-    arch.update([cand])
-    now = arch._covered.get(g)
-    if now is inc:
-        return reach(True)
-    return reach(now is cand and not (inc.error_free and cand.has_errors))
-
-
 def h_cov_add_goals(k: int, c0: bool, c1: bool, c2: bool, i0: int, r0: int, dup: int,
                     sa: int, ra: int, a0: bool, a1: bool, a2: bool, anew: bool) -> bool:
     """
@@ -389,9 +368,8 @@ META = {
              "loses its best h, is covered exactly from the first h==1.0 on and then keeps exactly one covering solution "
              "that is only exchanged for a no-worse covering one, and the counter is reset exactly on additions. MIOArchive: "
              "callbacks once per covered target, one covering solution per covered target.",
-    "note": "The replacement rule is checked per single replacement, as the property states it; the separate obligation "
-            "cov_error_free_kept checks the archive's own documented notion of 'better' (an error-free incumbent is not "
-            "given up for a failing test) and exhibits a listed finding. "
+    "note": "The replacement rule is checked per single replacement, as the property states it (an erroring but strictly "
+            "shorter candidate may replace an error-free incumbent). "
             "Trusts CPython 3.12.1, CrossHair's models and z3. Chromosomes are stubs (size, result kind, covered goals / "
             "fitness); real DynaMOSA/MOSA/MIO runs and 're-executed archived tests still cover their goal' are outside "
             "(need real executions); _GoalsManager.update monotonicity belongs to C07.",
@@ -429,7 +407,6 @@ def obligations(tier: str):
         # several goals (partition, shared incumbents, callbacks, return value): one candidate
         Chx("cov_step_k2", h_cov_step, timeout=T, fix={"k": 2}, split={"ncand": [0, 1], "c0": B}),
         Chx("cov_add_goals", h_cov_add_goals, timeout=T, split={"k": [1, 2], "c0": B}),
-        Chx("cov_error_free_kept", h_cov_error_free_kept, timeout=T),
         Chx("mio_archive", h_mio_archive, timeout=T, split={"n": [1, 2, 3], "size": [1, 2]}),
     ]
     if q:
